@@ -7,6 +7,7 @@ package main
 // resolved constructs (callee objects, field names, literal types), not on source text.
 
 import (
+	"sort"
 	"fmt"
 	"go/ast"
 	"go/token"
@@ -39,6 +40,7 @@ type emitSel struct {
 	field string // for emAppendLit: "Field=ConstName"; for emAssignField: field name
 	argIs string // optional: for emCall — some argument's text must contain this
 	text  string // optional: the emitted literal/call text must contain this (e.g. a constant message)
+	args  []string // optional, for emCall: positional argument texts ("" = any) that must be contained
 }
 
 func splitType(s string) (pkg, name string) {
@@ -151,6 +153,13 @@ func findEmissions(fn *Func, sel emitSel) []ast.Node {
 							return true
 						}
 					}
+					if sel.args != nil {
+						for i, want := range sel.args {
+							if want != "" && (i >= len(call.Args) || !strings.Contains(exprStr(call.Args[i]), want)) {
+								return true
+							}
+						}
+					}
 					out = append(out, call)
 				}
 			}
@@ -204,7 +213,7 @@ func findEmissions(fn *Func, sel emitSel) []ast.Node {
 		case emAssignIdent:
 			if as, ok := n.(*ast.AssignStmt); ok && len(as.Lhs) == len(as.Rhs) {
 				for i, l := range as.Lhs {
-					if id, ok := ast.Unparen(l).(*ast.Ident); ok && id.Name == sel.name {
+					if id, ok := ast.Unparen(l).(*ast.Ident); ok && (id.Name == sel.name || sel.name == "") {
 						if sel.argIs == "" || exprStr(as.Rhs[i]) == sel.argIs {
 							out = append(out, as)
 						}
@@ -213,9 +222,11 @@ func findEmissions(fn *Func, sel emitSel) []ast.Node {
 			}
 		case emAssignField:
 			if as, ok := n.(*ast.AssignStmt); ok {
-				for _, l := range as.Lhs {
+				for i, l := range as.Lhs {
 					if s, ok := ast.Unparen(l).(*ast.SelectorExpr); ok && s.Sel.Name == sel.field {
-						out = append(out, as)
+						if sel.argIs == "" || (len(as.Lhs) == len(as.Rhs) && strings.Contains(exprStr(as.Rhs[i]), sel.argIs)) {
+							out = append(out, as)
+						}
 					}
 				}
 			}
@@ -573,6 +584,7 @@ type row struct {
 	need  []guard
 	min   int      // minimum number of emission sites expected
 	exact []string // if set: the set of comparison/field atoms allowed as *data filters* at the emission (no others)
+	live  map[string]bool // if set: with these atoms fixed (text -> truth) the emission must still be reachable (the guards may not be stronger)
 	why   string
 }
 
@@ -594,6 +606,17 @@ func safeAtom(fn *Func, a *Atom) bool {
 	switch x := e.(type) {
 	case *ast.BinaryExpr:
 		if isNilIdent(info, x.X) || isNilIdent(info, x.Y) {
+			other := x.X
+			if isNilIdent(info, x.X) {
+				other = x.Y
+			}
+			// a nil test of a schema field (x.Body == nil, x.DependentBody != nil, …) selects among
+			// schemas: it is a data filter. Nil tests of locals, errors and syntax nodes are not.
+			if sel, ok := ast.Unparen(other).(*ast.SelectorExpr); ok {
+				if tv := info.TypeOf(sel); tv != nil && roleOfType(tv) == roleCONS {
+					return false
+				}
+			}
 			return true
 		}
 	case *ast.CallExpr:
@@ -726,6 +749,23 @@ func runRows(prop string) func(p *Prog, r *Report) {
 							continue
 						}
 					}
+					if rw.live != nil {
+						canT, _ := possible(fn.GuardsAt(em), func(a *Atom) (bool, bool) {
+							if a.E == nil {
+								return false, false
+							}
+							return liveLookup(rw.live, atomKey(fn, a))
+						})
+						if !canT {
+							var ks []string
+							for k, v := range rw.live {
+								ks = append(ks, fmt.Sprintf("%s is %v", k, v))
+							}
+							sort.Strings(ks)
+							r.Add("E1.row", fn.Name, construct, p.Pos(em), Violated, rw.why+" — the guards are too strong: with "+strings.Join(ks, " and ")+" this point can no longer be reached", true)
+							continue
+						}
+					}
 					var gs []string
 					for _, g := range rw.need {
 						gs = append(gs, g.String())
@@ -810,4 +850,97 @@ func containsStr(xs []string, x string) bool {
 		}
 	}
 	return false
+}
+
+// atomKey: normalised text of an atom's expression: "<Field> == nil" for nil comparisons
+// (receiver-independent), cmpText otherwise.
+func atomKey(fn *Func, a *Atom) string {
+	info := fn.Info()
+	e := ast.Unparen(a.E)
+	if be, ok := e.(*ast.BinaryExpr); ok && (be.Op == token.EQL || be.Op == token.NEQ) {
+		var other ast.Expr
+		if isNilIdent(info, be.Y) {
+			other = be.X
+		} else if isNilIdent(info, be.X) {
+			other = be.Y
+		}
+		if other != nil {
+			op := "=="
+			if be.Op == token.NEQ {
+				op = "!="
+			}
+			return exprStr(other) + " " + op + " nil"
+		}
+	}
+	return cmpText(e)
+}
+
+// liveLookup: value of an atom under a row's live assignment; keys may be written with the
+// full operand text or with its last selector only, as == or != nil.
+func liveLookup(live map[string]bool, key string) (bool, bool) {
+	try := func(k string) (bool, bool) {
+		if v, ok := live[k]; ok {
+			return v, true
+		}
+		// opposite spelling
+		if strings.HasSuffix(k, " == nil") {
+			if v, ok := live[strings.TrimSuffix(k, " == nil")+" != nil"]; ok {
+				return !v, true
+			}
+		}
+		if strings.HasSuffix(k, " != nil") {
+			if v, ok := live[strings.TrimSuffix(k, " != nil")+" == nil"]; ok {
+				return !v, true
+			}
+		}
+		return false, false
+	}
+	if v, ok := try(key); ok {
+		return v, true
+	}
+	if strings.HasSuffix(key, " nil") {
+		parts := strings.SplitN(key, " ", 2)
+		if i := strings.LastIndex(parts[0], "."); i >= 0 {
+			return try(parts[0][i+1:] + " " + parts[1])
+		}
+	}
+	return false, false
+}
+
+// possible: which truth values can the formula take when some atoms are fixed by assign
+// (value, known) and all others are free?
+func possible(f *Formula, assign func(a *Atom) (bool, bool)) (canTrue, canFalse bool) {
+	if f == nil {
+		return true, false
+	}
+	switch f.Op {
+	case 0:
+		if f.Atom == nil {
+			return true, true
+		}
+		v, known := assign(f.Atom)
+		if !known {
+			// the negated spelling
+			return true, true
+		}
+		// the atom states: E evaluates to Pol
+		holds := v == f.Atom.Pol
+		return holds, !holds
+	case 1:
+		ct, cf := true, false
+		for _, s := range f.Sub {
+			t, fl := possible(s, assign)
+			ct = ct && t
+			cf = cf || fl
+		}
+		return ct, cf
+	default:
+		ct, cf := false, true
+		for _, s := range f.Sub {
+			t, fl := possible(s, assign)
+			ct = ct || t
+			cf = cf && fl
+		}
+		return ct, cf
+	}
 }
